@@ -54,7 +54,7 @@ def nonatomic_ops(trace):
     destination is a permanent object / metadata / pid-ref address are rename and remove."""
     bad = []
     for kind, path in trace:
-        if kind in ("open-w", "open-a", "open-r+", "write", "truncate", "create") and \
+        if kind in ("open-w", "open-a", "open-x", "open-r+", "write", "truncate", "create") and \
                 addr_kind(path) in ("object", "metadata", "pid-ref"):
             bad.append(("in-place-write-at-permanent-address", kind, addr_kind(path)))
     return bad
